@@ -196,6 +196,10 @@ impl Ctx {
     /// violation message if it still fails; it is called twice. A case that does not fail
     /// identically on replay is a machinery error (non-determinism), not a verdict.
     pub fn violation(&self, msg: String, case: Value, recheck: &dyn Fn() -> Option<String>) {
+        self.violation_tagged("", msg, case, recheck)
+    }
+
+    fn violation_tagged(&self, tag: &str, msg: String, case: Value, recheck: &dyn Fn() -> Option<String>) {
         let r1 = recheck();
         let r2 = recheck();
         if r1.as_deref() != Some(msg.as_str()) || r2.as_deref() != Some(msg.as_str()) {
@@ -209,6 +213,7 @@ impl Ctx {
         }
         let n = self.violation_count.fetch_add(1, Ordering::SeqCst);
         if n < 25 {
+            let msg = if tag.is_empty() { msg } else { format!("[{tag}] {msg}") };
             self.violations.lock().unwrap().push(Violation { msg, case });
         }
     }
@@ -235,7 +240,7 @@ impl Ctx {
                 e.1 = format!("{msg} case={case}");
             }
         } else {
-            self.violation(format!("[{sig}] {msg}"), case, recheck);
+            self.violation_tagged(sig, msg, case, recheck);
         }
     }
 
